@@ -1014,6 +1014,29 @@ func (x *Exec) specCall(env *SpecEnv, c ECall) SpecVal {
 			return SpecVal{T: Gt(v, x.d.Const("H0!$top", SInt))}
 		}
 		return SpecVal{T: Gt(v, x.top(env.old))}
+	case "visited", "visitcount":
+		// ghost state of the (single) map range statement active on this path
+		var base string
+		for name := range env.st.heap {
+			if strings.HasPrefix(name, "$mi!") && strings.HasSuffix(name, "!vis") {
+				if base != "" && base != strings.TrimSuffix(name, "!vis") {
+					unsupported("%s: more than one map range statement on this path", c.Fn)
+				}
+				base = strings.TrimSuffix(name, "!vis")
+			}
+		}
+		if base == "" {
+			unsupported("%s: no map range statement has been entered", c.Fn)
+		}
+		if c.Fn == "visitcount" {
+			return SpecVal{T: env.st.heap[base+"!cnt"], Ty: types.Typ[types.Int]}
+		}
+		kv := x.spec(env, c.Args[0])
+		kt := kv.T
+		if kv.Lit {
+			kt = x.intLit(kv.N, env.st.heap[base+"!vis"].Sort.IndexSort())
+		}
+		return SpecVal{T: Select(env.st.heap[base+"!vis"], kt)}
 	case "mark":
 		// mark(x): always true; a state-independent term to trigger on
 		// (forall m :: withtrig(mark(m), ...) fires for every m whose mark
